@@ -67,16 +67,15 @@ def g_ohex(h):
 
 
 def url_class(u):
+    """UTapdance t: a URL that is not the expected one but becomes it under strings.ReplaceAll(url, "tapdance.", "proto.")"""
     table = {"GenericTransportParams": "TGeneric", "PrefixTransportParams": "TPrefix", "DTLSTransportParams": "TDtls"}
     if u == "":
         return "UEmpty"
     for k, v in table.items():
         if u == pb.URL + "proto." + k:
             return "(UExact %s)" % v
-        # strings.ReplaceAll(url, "tapdance.", "proto.") maps exactly this URL onto the expected one
-        if u == pb.URL + "tapdance." + k:
+        if u.replace("tapdance.", "proto.") == pb.URL + "proto." + k:
             return "(UTapdance %s)" % v
-    assert "tapdance." not in u, "generator must not produce other URLs containing 'tapdance.'"
     return "UOther"
 
 
@@ -404,9 +403,14 @@ def crash_check(ctx, entry, cls, out, detail, case):
 
 
 # ---------------------------------------------------------------- station + transports
+def thin(ctx, items, every):
+    """quick tier: keep every n-th item of a large cross product (deterministic); thorough: all"""
+    return items if ctx.tier != "quick" else [x for i, x in enumerate(items) if i % every == 0]
+
+
 def gen_station(ctx, corpus, garbage):
     cases, meta = [], []
-    for lbl, w in corpus:
+    for lbl, w in [x for i, x in enumerate(corpus) if ctx.tier != "quick" or not x[0].startswith("any/") or i % 2 == 0]:
         msg = pb.enc_wrapper(w)
         for (v4, v6) in ((True, True),):
             cases.append({"op": "ingest", "msg": msg.hex(), "v4": v4, "v6": v6, "geofail": False})
@@ -428,8 +432,8 @@ def gen_station(ctx, corpus, garbage):
                 meta.append(("newreg", lbl))
     # ParseParams / GetDstPort of every transport on every Any variant and library version
     for tr in (1, 2, 3, 4):
-        for lv in (0, 2, 3, 4, 2 ** 32 - 1):
-            for lbl, a in ANYS:
+        for lv in ((0, 2, 3, 4, 2 ** 32 - 1) if ctx.tier != "quick" else (2, 3, 4)):
+            for lbl, a in thin(ctx, ANYS, 2):
                 c = {"op": "params", "transport": tr, "libver": lv, "has_any": a is not None, "any": pb.enc_any(a).hex() if a is not None else ""}
                 cases.append(c)
                 meta.append(("params", "t%d/lv%d/%s" % (tr, lv, lbl)))
@@ -527,7 +531,7 @@ def post_station(ctx, cases, meta, res):
 # ---------------------------------------------------------------- registrar: processBdReq / processC2SWrapper
 def gen_regproc(ctx, corpus):
     cases, meta = [], []
-    for lbl, w in corpus:
+    for lbl, w in thin(ctx, corpus, 2):
         msg = pb.enc_wrapper(w).hex()
         cases.append({"op": "bdreq", "msg": msg, "nil": False, "auth": True, "enforce": ""})
         meta.append(("bdreq", lbl))
@@ -549,6 +553,8 @@ def gen_regproc(ctx, corpus):
 def post_regproc(ctx, cases, meta, res):
     terms, idx = [], []
     for k, (c, (op, lbl), r) in enumerate(zip(cases, meta, res)):
+        if r["out"] == "skip":
+            continue
         view = "None" if c["nil"] else g_view(r["view"])
         ec = r["ecode"] if r["err"] else 0
         oc = "(OErr 0)" if (r["err"] and not ec and r["out"] == "ret") else g_oclass(r["out"], ec)
@@ -583,8 +589,9 @@ def gen_api(ctx, corpus, garbage):
         cases.append({"cls": cls, "go": {"handler": handler, "method": method, "body": body.hex(), "xff": list(xff), "remote": remote,
                                          "clen": clen, "chunked": chunked, "ccgen": ccgen, "zmqfail": zmqfail}})
 
-    sel = [x for x in corpus if not x[0].startswith(("any/", "rand"))] + [x for i, x in enumerate(corpus) if x[0].startswith("any/") and i % 5 == 0] \
+    sel = thin(ctx, [x for x in corpus if not x[0].startswith(("any/", "rand"))], 3) + [x for i, x in enumerate(corpus) if x[0].startswith("any/") and i % 5 == 0] \
         + [x for x in corpus if x[0].startswith("rand")]
+    sel = thin(ctx, sel, 2)
     for lbl, w in sel:
         body = pad33(w)
         cls = lbl.split("/")[0]
@@ -664,9 +671,7 @@ def post_api(ctx, cases, res):
 # ---------------------------------------------------------------- registrar: DNS processRequest
 def gen_dnsproc(ctx, corpus, garbage):
     cases, meta = [], []
-    for lbl, w in corpus:
-        if lbl.startswith("any/") and hash(lbl) % 4:
-            continue
+    for lbl, w in thin(ctx, [x for i, x in enumerate(corpus) if not (x[0].startswith("any/") and i % 4)], 2):
         for src in (5, 6):
             w2 = dict(w)
             w2["source"] = src
@@ -732,7 +737,7 @@ def post_prefix(ctx, cases, res):
         crash_check(ctx, "%s.WrapConnection" % c["op"], "len%d" % (len(r["data"]) // 2), r["out"], r["detail"], c)
         oc = g_oclass(r["out"], r["ecode"])
         if c["op"] == "min":
-            terms.append("AMin (%s, %s, %s, %s)" % (g_hex(r["data"]), gbool(c["tag"] >= 0), oc, gZ(r["used"])))
+            terms.append("AMin (%s, %s, %s, %s)" % (g_hex(r["data"]), gbool(bool(r["found"])), oc, gZ(r["used"])))
         else:
             def rv(i):
                 reg = c["regs"][i]
@@ -756,9 +761,11 @@ def gen_obfs4(ctx):
     for marklen in (0, 15, 16, 17):
         for buflen in ((0, 16, 31, 32, 33, 108, 109, 140, 141, 142, 200, 8191, 8192, 8193, 9000) if marklen == 16 else (0, 141, 9000)):
             for start in ((-33, -1, 0, 1, 109, 200) if marklen == 16 else (-1, 109)):
-                for maxpos in ((-1, 0, 100, 141, 8192, 100000) if marklen == 16 else (141, 8192)):
+                for maxpos in (((-1, 0, 100, 141, 8192, 100000) if ctx.tier != "quick" else (-1, 100, 141, 8192)) if marklen == 16 else (141, 8192)):
                     for tail in (True, False):
                         ats = {-1, 0, start, max(0, buflen - 32), max(0, min(buflen, maxpos) - 32), max(0, min(buflen, maxpos) - 31), max(0, buflen - 16)}
+                        if ctx.tier == "quick":
+                            ats = {-1, start, max(0, min(buflen, maxpos) - 32), max(0, min(buflen, maxpos) - 31)}
                         if marklen != 16 or buflen > 300:
                             ats = {-1, max(0, min(buflen, maxpos) - 32)}
                         for at in sorted(ats):
@@ -922,6 +929,12 @@ def gen_dns(ctx):
         pkts.append(("mutated", bytes(b)))
     for c in (ctx.replay or {}).get("dns_packets", []):
         pkts.insert(0, ("replay", bytes.fromhex(c)))
+    pkts = [(l, p, None, 0) for l, p in pkts]
+    # well-formed queries whose noise layer decrypts (built by the driver with the responder's public key): the registration
+    # callback is reached and its answer travels back through AddResponseFormat / EncodeRDataTXT / WireFormat
+    for plain, rl in ((b"", 0), (b"hello", 10), (pb.enc_wrapper({"secret": SECRET, "payload": {"gen": 957, "transport": 1, "v4": 1}}), 255),
+                      (b"x" * 80, 256), (b"y" * 60, 1000), (b"z" * 5, 1190), (b"z" * 6, 5000), (b"w" * 7, 70000)):
+        pkts.append(("noise-valid", b"", plain, rl))
     return pkts
 
 
@@ -931,9 +944,13 @@ def g_name(labels):
 
 def post_dns(ctx, pkts, res):
     terms, idx = [], []
-    for k, ((lbl, pkt), r) in enumerate(zip(pkts, res)):
+    if res and not all(r["loop_done"] for r in res):
+        ctx.fail("driver-crash:dns-loop", "Responder.RecvAndRespond killed the driver process while answering the generated packets "
+                 "(a panic in the goroutine it starts per packet cannot be recovered)", {"entry": "RecvAndRespond"})
+    for k, ((lbl, pkt, plain, resplen), r) in enumerate(zip(pkts, res)):
+        pkt = bytes.fromhex(r["pkt_built"])
         crash_check(ctx, "dns.MessageFromWireFormat", lbl, r["p_out"], r["p_detail"], {"pkt": pkt.hex()})
-        crash_check(ctx, "responder.responseFor", lbl, r["r_out"] or "ret", r["r_detail"], {"pkt": pkt.hex()})
+        crash_check(ctx, "responder(responseFor/RemoveRequestFormat/WireFormat)", lbl, r["r_out"] or "ret", r["r_detail"], {"pkt": pkt.hex()})
         if len(pkt) > 1500:
             continue
         qs = glist(r["q"], lambda x: "(%s, %s, %s)" % (g_name(x["name"]), gN(x["type"]), gN(x["class"])))
@@ -950,12 +967,189 @@ def post_dns(ctx, pkts, res):
                 gN(r["addttl"]), g_hex(r["payload"])))
             idx.append(k)
             # the real loop must agree with the step-by-step run: a response is sent exactly for kind 1 (kind 2 fails in the noise layer here)
-            want = r["kind"] == 1
-            if r["loop_resp"] != want or (want and r["loop_flags"] != r["rflags"]):
+            want = r["kind"] == 1 or (r["kind"] == 2 and plain is not None and resplen < 65000)
+            if plain is not None and (r["kind"] != 2 or (r["loop_done"] and r["loop_proc"] != plain.hex())):
+                ctx.broken("correspondence", "a well-formed encrypted query did not reach the registration callback (kind=%d)" % r["kind"], {"pkt": pkt.hex()})
+            if r["loop_done"] and (r["loop_resp"] != want or (want and r["loop_flags"] != r["rflags"])):
                 ctx.broken("correspondence", "RecvAndRespond and the step-by-step run of its body disagree on packet class %s: loop sent=%s flags=%#x, steps kind=%d flags=%#x"
                            % (lbl, r["loop_resp"], r["loop_flags"], r["kind"], r["rflags"]), {"pkt": pkt.hex()})
-        ctx.count(("dns", pkt), nontrivial=True, kind="dns/parse-%d/kind-%d" % (r["p_err"], r["kind"]) if r["p_out"] == "ret" else "dns/panic")
+        ctx.count(("dns", pkt if plain is None else plain, resplen), nontrivial=True,
+                  kind=("dns/parse-%d/kind-%d" % (r["p_err"], r["kind"]) if r["p_out"] == "ret" else "dns/panic") + ("/noise-valid" if plain is not None else ""))
     return terms, idx
+
+
+
+# ================================================================ native fuzzing (thorough tier)
+def go_unquote(q):
+    """the body of a Go %q literal (between the quotes) -> bytes"""
+    out = bytearray()
+    i = 0
+    simple = {"a": 7, "b": 8, "f": 12, "n": 10, "r": 13, "t": 9, "v": 11, "\\": 92, "'": 39, '"': 34}
+    while i < len(q):
+        ch = q[i]
+        if ch != "\\":
+            out += ch.encode("utf8")
+            i += 1
+            continue
+        e = q[i + 1]
+        if e in simple:
+            out.append(simple[e])
+            i += 2
+        elif e == "x":
+            out.append(int(q[i + 2:i + 4], 16))
+            i += 4
+        elif e == "u":
+            out += chr(int(q[i + 2:i + 6], 16)).encode("utf8")
+            i += 6
+        elif e == "U":
+            out += chr(int(q[i + 2:i + 10], 16)).encode("utf8")
+            i += 10
+        elif e in "01234567":
+            out.append(int(q[i + 1:i + 4], 8))
+            i += 4
+        else:
+            raise ValueError("escape \\%s" % e)
+    return bytes(out)
+
+
+def parse_corpus_file(path):
+    """a file of Go's fuzz corpus format -> list of values (bytes / str-as-bytes / int / bool), or None"""
+    try:
+        with open(path, encoding="utf8", errors="surrogateescape") as f:
+            lines = f.read().split("\n")
+        if not lines or not lines[0].startswith("go test fuzz v1"):
+            return None
+        vals = []
+        for ln in lines[1:]:
+            if not ln.strip():
+                continue
+            m = re.match(r'^(\[\]byte|string)\("(.*)"\)$', ln, flags=re.S)
+            if m:
+                vals.append(go_unquote(m.group(2)))
+                continue
+            m = re.match(r"^(byte|rune)\('(.*)'\)$", ln)
+            if m:
+                b = go_unquote(m.group(2))
+                vals.append(b[0] if m.group(1) == "byte" and len(b) == 1 else ord(b.decode("utf8")))
+                continue
+            m = re.match(r"^(u?int\d*)\((-?\d+)\)$", ln)
+            if m:
+                vals.append(int(m.group(2)))
+                continue
+            m = re.match(r"^bool\((true|false)\)$", ln)
+            if m:
+                vals.append(m.group(1) == "true")
+                continue
+            return None
+        return vals
+    except Exception:
+        return None
+
+
+FUZZERS = [
+    # name, package path, package name, files (driver + fuzz), target, needs the regprocessor shim
+    ("ingest", "pkg/station/lib", "lib", ("station_driver_test.go", "station_fuzz_test.go"), "FuzzVerifC11Ingest", False),
+    ("params", "pkg/station/lib", "lib", ("station_driver_test.go", "station_fuzz_test.go"), "FuzzVerifC11Params", False),
+    ("api", "pkg/regserver/apiregserver", "apiregserver", ("api_driver_test.go", "api_fuzz_test.go"), "FuzzVerifC11Api", True),
+    ("bdreq", "pkg/regserver/regprocessor", "regprocessor", ("regproc_driver_test.go", "regproc_fuzz_test.go"), "FuzzVerifC11BdReq", True),
+    ("dnsproc", "pkg/regserver/dnsregserver", "dnsregserver", ("dnsreg_driver_test.go", "dnsreg_fuzz_test.go"), "FuzzVerifC11DnsProc", True),
+    ("dns", "pkg/registrars/dns-registrar/responder", "responder", ("responder_driver_test.go", "responder_fuzz_test.go"), "FuzzVerifC11Dns", False),
+    ("flight", "pkg/transports/wrapping/prefix", "prefix", ("prefix_driver_test.go", "prefix_fuzz_test.go"), "FuzzVerifC11Flight", False),
+    ("obfs4", "pkg/transports/wrapping/obfs4", "obfs4", ("obfs4_driver_test.go", "obfs4_fuzz_test.go"), "FuzzVerifC11Obfs4", False),
+]
+
+
+def go_fuzz(ctx, spec, seeds, fuzztime, cachedir, crashfile):
+    """run one native fuzz target through an overlay (nothing is written into the repository: the targets record
+    crashes in crashfile instead of failing, new-coverage inputs go to cachedir)"""
+    import json
+    import time
+    name, pkgpath, pkgname, files, target, shim = spec
+    t0 = time.time()
+    pkgdir = os.path.normpath(os.path.join(lib.REPO, pkgpath))
+    repl = {os.path.join(pkgdir, "zz_verif_driver_test.go"): os.path.join(lib.INPKG, "c11", files[0]),
+            os.path.join(pkgdir, "zz_verif_fuzz_test.go"): os.path.join(lib.INPKG, "c11", files[1]),
+            os.path.join(pkgdir, "zz_verif_view_test.go"): inst_view(pkgname)}
+    if shim:
+        for dst, src in EXPORT_SHIM.items():
+            repl[os.path.join(lib.REPO, dst)] = os.path.join(lib.INPKG, src)
+    tag = "%s_%d" % (target, os.getpid())
+    ov = os.path.join(lib.BUILD, "ov_%s.json" % tag)
+    with open(ov, "w") as f:
+        json.dump({"Replace": repl}, f)
+    cpath = os.path.join(lib.BUILD, "seeds_%s.json" % tag)
+    with open(cpath, "w") as f:
+        json.dump([s.hex() for s in seeds], f)
+    env = dict(lib.GOENV)
+    env.pop("GOFLAGS")
+    env.update({"VERIF_CASES": cpath, "VERIF_FUZZ_CRASH": crashfile})
+    cmd = ["go", "test", "-vet=off", "-tags", "verif", "-overlay", ov, "-run", "^$", "-fuzz", "^%s$" % target,
+           "-fuzztime", "%ds" % fuzztime, "-parallel", "2", "./" + pkgpath, "-test.fuzzcachedir=" + cachedir]
+    rc, out = lib.sh(cmd, cwd=lib.REPO, env=env, timeout=fuzztime + 600)
+    for p in (ov, cpath):
+        if os.path.exists(p):
+            os.remove(p)
+    m = re.findall(r"execs: (\d+)", out)
+    TIMES["fuzz:%s" % name] = round(time.time() - t0, 1)
+    return rc, out, int(m[-1]) if m else 0
+
+
+def fuzz_all(ctx, corpus, garbage, dns_pkts, fuzztime):
+    """returns {name: [value lists the fuzzer kept as interesting]}; crashes are reported through ctx.fail"""
+    import json
+    import shutil
+    cachedir = os.path.join(lib.BUILD, "c11_fuzzcache_%d" % os.getpid())
+    crashfile = os.path.join(lib.BUILD, "c11_fuzzcrash_%d.jsonl" % os.getpid())
+    shutil.rmtree(cachedir, ignore_errors=True)
+    if os.path.exists(crashfile):
+        os.remove(crashfile)
+    wr = [pb.enc_wrapper(w) for l, w in corpus if not l.startswith("rand")][::7] + [b for _, b in garbage[:20]]
+    seeds = {"ingest": wr, "api": [pad33(w) for l, w in corpus if not l.startswith(("rand", "any/"))][::9],
+             "bdreq": wr, "dnsproc": wr, "params": [a["value"] for _, a in ANYS if a and "value" in a][::3],
+             "dns": [p for _, p, pl, _ in dns_pkts if pl is None and len(p) < 600][::2],
+             "flight": [bytes(range(64)), b"GET / HTTP/1.1\r\n", b"\x16\x03\x03\x40\x00\x01" + bytes(70), b""],
+             "obfs4": [bytes(64), bytes(141), bytes(200)]}
+    stats = {}
+    with ThreadPoolExecutor(max_workers=len(FUZZERS)) as ex:
+        futs = {spec[0]: ex.submit(go_fuzz, ctx, spec, seeds[spec[0]], fuzztime, cachedir, crashfile) for spec in FUZZERS}
+        for name, f in futs.items():
+            rc, out, execs = f.result()
+            stats[name] = {"rc": rc, "execs": execs}
+            if rc != 0 or execs == 0:
+                ctx.broken("fuzz", "native fuzzing of %s did not run to completion (rc=%d): %s" % (name, rc, out[-600:]))
+    found = {}
+    for spec in FUZZERS:
+        d = os.path.join(cachedir, spec[4])
+        vals = []
+        if os.path.isdir(d):
+            for fn in sorted(os.listdir(d)):
+                v = parse_corpus_file(os.path.join(d, fn))
+                if v is not None:
+                    vals.append(v)
+        found[spec[0]] = vals
+        stats[spec[0]]["kept"] = len(vals)
+    if os.path.exists(crashfile):
+        with open(crashfile) as f:
+            for ln in f:
+                try:
+                    c = json.loads(ln)
+                except ValueError:
+                    continue
+                ctx.fail("fuzz:%s/%s" % (c["outcome"], c["entry"]),
+                         "native fuzzing found an input on which %s %s: %s" % (c["entry"], "panicked" if c["outcome"] == "panic" else "did not return within 5 s", c["detail"][:400]),
+                         {"entry": c["entry"], "fuzz_input": c["input"]})
+        os.remove(crashfile)
+    shutil.rmtree(cachedir, ignore_errors=True)
+    ctx.cov["fuzz"] = stats
+    return found
+
+
+def is_utf8(b):
+    try:
+        b.decode("utf8")
+        return True
+    except UnicodeDecodeError:
+        return False
 
 
 # ================================================================ run
@@ -969,7 +1163,7 @@ REQUIRED_KINDS = [
     "min/found", "min/err20", "min/err21", "prefix/found", "prefix/err20", "prefix/err21", "prefix/err22", "prefix/err23",
     "obfs4/err20", "obfs4/err21", "obfs4/err24", "markmac/panic", "markmac/found", "markmac/none",
     "dns/parse-0/kind-2", "dns/parse-0/kind-1", "dns/parse-0/kind-0", "dns/parse-30/kind-1", "dns/parse-31/kind-1", "dns/parse-32/kind-1",
-    "dns/parse-33/kind-1", "dns/parse-34/kind-1", "dns/parse-34/kind-2",
+    "dns/parse-33/kind-1", "dns/parse-34/kind-1", "dns/parse-34/kind-2", "dns/parse-0/kind-2/noise-valid",
 ]
 
 
@@ -992,6 +1186,9 @@ def run(ctx):
                        "wrong-length addresses and secrets / mismatched Any types around well-formed messages, plus a seeded malformed stream; "
                        "a case is non-trivial if it is hash-distinct; the histogram lists outcome classes per entry point and every class must be hit")
     ctx.coq_props()
+    rc, out = ctx.coq_make(["C11/Examples.vo"])
+    if rc != 0:
+        ctx.broken("examples", "coq/C11/Examples.v (non-vacuity examples, witness of finding #8 on the pre-fix model) no longer compiles: " + out[-500:])
     quick = ctx.tier == "quick"
     rng = ctx.rng
     corpus = wrapper_corpus(rng, 120 if quick else 2500)
@@ -1005,6 +1202,68 @@ def run(ctx):
     dp_cases, dp_meta = gen_dnsproc(ctx, corpus, garbage)
     ob_cases = gen_obfs4(ctx)
     dns_pkts = gen_dns(ctx)
+    pf_extra = []
+    # cases carried by a replay file (the enumeration itself is deterministic, so re-running the check replays it anyway)
+    for f in (ctx.replay or {}).get("failures", []):
+        c = f.get("case") or {}
+        inner = c.get("case") or {}
+        if c.get("entry") == "api" and "handler" in inner:
+            api_cases.insert(0, {"cls": "replay", "go": inner})
+        elif inner.get("op") in ("ingest", "newreg", "params", "dstport"):
+            st_cases.insert(0, inner)
+            st_meta.insert(0, (inner["op"], "replay"))
+        elif "pkt" in inner:
+            dns_pkts.insert(0, ("replay", bytes.fromhex(inner["pkt"]), None, 0))
+        elif "pkt" in c:
+            dns_pkts.insert(0, ("replay", bytes.fromhex(c["pkt"]), None, 0))
+    if not quick:
+        # coverage-guided search per entry point; what the fuzzers kept is replayed below against the model
+        found = fuzz_all(ctx, corpus, garbage, dns_pkts, int(os.environ.get("VERIF_FUZZTIME", "150")))
+        for v in found["ingest"]:
+            if len(v) == 2 and isinstance(v[0], bytes):
+                st_cases.append({"op": "ingest", "msg": v[0].hex(), "v4": bool(v[1] & 1), "v6": bool(v[1] & 2), "geofail": bool(v[1] & 4)})
+                st_meta.append(("ingest", "fuzz"))
+        for v in found["params"]:
+            if len(v) == 5 and isinstance(v[3], bytes) and isinstance(v[4], bytes) and is_utf8(v[3]):
+                a = {"url": v[3].decode("utf8"), "value": v[4]}
+                st_cases.append({"op": "params", "transport": v[0] % 4 + 1, "libver": v[1], "has_any": bool(v[2]), "any": pb.enc_any(a).hex() if v[2] else ""})
+                st_meta.append(("params", "fuzz"))
+        for v in found["api"]:
+            if len(v) == 3 and isinstance(v[0], bytes):
+                api_cases.append({"cls": "fuzz", "go": {"handler": "bidi" if v[1] & 1 else "uni", "method": "POST", "body": v[0].hex(), "xff": [], "remote": "",
+                                                       "clen": None, "chunked": False, "ccgen": v[2] if v[1] & 2 else None, "zmqfail": False}})
+        for v in found["bdreq"]:
+            if len(v) == 2 and isinstance(v[0], bytes):
+                rp_cases.append({"op": "bdreq", "msg": v[0].hex(), "nil": False, "auth": bool(v[1] & 1), "enforce": ""})
+                rp_meta.append(("bdreq", "fuzz"))
+                rp_cases.append({"op": "c2sw", "msg": v[0].hex(), "nil": False, "auth": bool(v[1] & 1), "enforce": "", "addr_nil": False})
+                rp_meta.append(("c2sw", "fuzz"))
+        for v in found["dnsproc"]:
+            if len(v) == 2 and isinstance(v[0], bytes):
+                dp_cases.append({"msg": v[0].hex(), "ccgen": v[1], "zmqfail": False})
+                dp_meta.append("fuzz")
+        for v in found["dns"]:
+            if len(v) == 1 and isinstance(v[0], bytes) and len(v[0]) <= 1400:
+                dns_pkts.append(("fuzz", v[0], None, 0))
+        kinds = [{"is_prefix": True, "pkind": "pref", "pid": 0}, {"is_prefix": True, "pkind": "pref", "pid": 1}, {"is_prefix": True, "pkind": "pref", "pid": 9},
+                 {"is_prefix": True, "pkind": "pref_nil", "pid": 0}, {"is_prefix": True, "pkind": "nil", "pid": 0}, {"is_prefix": True, "pkind": "gen", "pid": 0},
+                 {"is_prefix": False, "pkind": "nil", "pid": 0}]
+        for v in found["flight"]:
+            if len(v) == 4 and isinstance(v[0], bytes) and len(v[0]) <= 1400:
+                raw, tagpos = v[0], v[1]
+                c = {"op": "min" if v[3] else "prefix", "regs": [kinds[v[2] % len(kinds)]]}
+                if tagpos <= len(raw):
+                    c.update({"pre": raw[:tagpos].hex(), "tag": 0, "post": raw[tagpos:].hex()})
+                else:
+                    c.update({"pre": raw.hex(), "tag": -1, "post": ""})
+                pf_extra.append(c)
+        for v in found["obfs4"]:
+            if len(v) == 3 and isinstance(v[0], bytes):
+                n = len(v[0])
+                ob_cases.append({"op": "wrap", "len": n, "regs": ["ok"] * (v[1] % 3)})
+                for tail in (True, False):
+                    ob_cases.append({"op": "markmac", "marklen": 16, "buflen": n, "startpos": 109, "maxpos": 8192, "fromtail": tail,
+                                     "markat": v[2] if (v[2] >= 0 and v[2] + 16 <= n) else -1})
     # the prefix cases need the table: dump it first (cheap), then generate
     jobs = {
         "station": lambda: go_run(ctx, "pkg/station/lib", "lib", "station_driver_test.go", "TestVerifC11Station", st_cases),
@@ -1013,7 +1272,7 @@ def run(ctx):
         "dnsproc": lambda: go_run(ctx, "pkg/regserver/dnsregserver", "dnsregserver", "dnsreg_driver_test.go", "TestVerifC11DnsProc", dp_cases, extra=EXPORT_SHIM),
         "obfs4": lambda: go_run(ctx, "pkg/transports/wrapping/obfs4", "obfs4", "obfs4_driver_test.go", "TestVerifC11Obfs4", ob_cases),
         "dns": lambda: go_run(ctx, "pkg/registrars/dns-registrar/responder", "responder", "responder_driver_test.go", "TestVerifC11Responder",
-                              [{"pkt": p.hex()} for _, p in dns_pkts]),
+                              [{"pkt": p.hex(), "has_plain": pl is not None, "plain": (pl or b"").hex(), "resplen": rl} for _, p, pl, rl in dns_pkts]),
         "prefix-dump": lambda: go_run(ctx, "pkg/transports/wrapping/prefix", "prefix", "prefix_driver_test.go", "TestVerifC11Prefix", [{"op": "dump"}]),
     }
     results = {}
@@ -1026,7 +1285,7 @@ def run(ctx):
             tbl = None
         else:
             tbl = res[0]["table"]
-            pf_cases = gen_prefix(ctx, tbl)
+            pf_cases = gen_prefix(ctx, tbl) + pf_extra
             futs["prefix"] = ex.submit(lambda: go_run(ctx, "pkg/transports/wrapping/prefix", "prefix", "prefix_driver_test.go", "TestVerifC11Prefix", pf_cases))
         for k, f in futs.items():
             results[k] = f.result()
